@@ -147,7 +147,16 @@ ConfigTab == <<
      E({N(RT, "Poll")}, "4s", Pol("1s", "8s", "1.25", {"PERMISSION_DENIED", "ALREADY_EXISTS"}, 0)),
      E({N(RT, "BatchGet")}, "2s", Pol("0.5s", "2s", "1", {"INVALID_ARGUMENT", "FAILED_PRECONDITION"}, 0)),
      E({N(RT, "Get")}, "30s", Pol("1s", "4s", "2", {"UNKNOWN", "DATA_LOSS"}, 0)),
-     E({N(RT, "GetMore"), N(RT, "BatchGet")}, "1s", NoPol) >>
+     E({N(RT, "GetMore"), N(RT, "BatchGet")}, "1s", NoPol) >>,
+  \* 7: service-level names before and beside exact ones, an entry naming three methods of two services, timeouts
+  \*    below one second (ApiCoreFloor), api-core defaults under a long deadline, constant back-off
+  << E({N(RT, "")}, "1s", Pol("0.125s", "0.25s", "2", {"UNAVAILABLE"}, 0)),
+     E({N(RT, ""), N(RT, "Get")}, "0.5s", Pol("0.125s", "0.5s", "2", {"INTERNAL", "UNAVAILABLE"}, 0)),
+     E({N(RT, "BatchGet"), N(AD, "Get"), N(RT, "Touch")}, "60s", Pol("", "", "", {"UNAVAILABLE", "ABORTED"}, 0)),
+     E({N(RT, "Get"), N(AD, "")}, "8s", Pol("1s", "1s", "2", {"NOT_FOUND"}, 0)),
+     E({N(RT, "Put")}, "1s", Pol("0.5s", "0.5s", "1", {"DEADLINE_EXCEEDED"}, 0)),
+     E({N(RT, "Drop")}, "0.125s", NoPol),
+     E({N(RT, "Scan")}, "2.5s", Pol("0.75s", "3s", "1.5", {"UNKNOWN", "CANCELLED"}, 0)) >>
 >>
 
 Dyadic(t) == t % 125 = 0        \* a whole number of 1/4096 s: binary floating point is exact on these
